@@ -195,6 +195,26 @@ class Hist:
         for s in sg[1:]:
             self.steps[-1].setdefault("moresigs", []).append(s)
 
+    def op_range_then_single(self):
+        """a number range of one kind, then one inner entry deleted, then an unrelated number of the same kind defined: the first definition's range
+        must not be replayed by the later one (three consecutive steps, each checked like any other)"""
+        r = self.rng
+        kind = r.choice([k for k in KINDS if k != "mix"])
+        a = r.randint(1, 4)
+        b = a + r.randint(1, 3)
+        t = "%s %d-%d\n%s" % (kind.upper(), a, b, self.body(kind))
+        tk = self.new()
+        for n in range(a, b + 1):
+            self.m[(kind, n)] = tk
+        self.add(t + "END\n", "define", "define|%s|%s" % (kind, shape(a, b)), fresh=[(kind, n) for n in range(a, b + 1)])
+        inner = r.randint(a + 1, b)
+        self.m.pop((kind, inner), None)
+        self.add("DELETE\n -%s %d\nEND\n" % (DELETE_WORD.get(kind, kind), inner), "delete", "delete|%s|inner-of-range" % kind)
+        c = r.choice([n for n in range(1, 10) if n < a or n > b])
+        t = "%s %d\n%s" % (kind.upper(), c, self.body(kind))
+        self.m[(kind, c)] = self.new()
+        self.add(t + "END\n", "define", "define|%s|after-range" % kind, fresh=[(kind, c)])
+
     def _uses(self, n_sol, pick_numbers):
         """USE lines for a batch reaction; returns (text, used dict kind->n)"""
         r = self.rng
@@ -362,7 +382,7 @@ def build(ctx, case):
     h = Hist(r)
     h.op_define("solution")
     h.op_define("solution")
-    ops = [(h.op_define, 30), (h.op_copy, 16), (h.op_delete, 10), (h.op_react, 14), (h.op_resave, 5), (h.op_mix, 7), (h.op_modify, 8), (h.op_run_cells, 10)]
+    ops = [(h.op_define, 30), (h.op_copy, 16), (h.op_delete, 10), (h.op_react, 14), (h.op_resave, 5), (h.op_mix, 7), (h.op_modify, 8), (h.op_run_cells, 10), (h.op_range_then_single, 6)]
     tot = sum(w for _, w in ops)
     while len(h.steps) < case["nops"]:
         x = r.uniform(0, tot)
